@@ -34,8 +34,10 @@ class _Base(BayesianModel):
     def _add_observations(self, data):
         pass
 
+    nobs = 0
+
     def n_obs(self):
-        return 0
+        return self.nobs
 
 
 class CountMCMC(_Base, MCMCModel):
@@ -57,6 +59,7 @@ class CountVI(_Base, VIModel):
 
 def _run(kind, b, t, n, seed=3, nchains=2, idx=1):
     m = CountMCMC() if kind == "mcmc" else CountVI()
+    m.nobs = (0, 7, 1)[(b + t + n) % 3]          # with and without data: the schedule does not depend on it
     h = ThetaHolder(n_thetas=n)
     st, r = outcome(sampling.sample, m, h, seed, n_chains=nchains, chain_index=idx, n_burnin=b, thin=t)
     ev = list(m.log)
@@ -78,6 +81,33 @@ def _stream_tok(rng, intern, nwin):
     return tok, win
 
 
+PCG_MULT = 0x2360ED051FC65DA44385DF649FCCF645          # numpy's PCG64: state' = state * PCG_MULT + inc (mod 2^128)
+M128 = (1 << 128) - 1
+
+
+def lcg_distance(s1, s2, inc):
+    """number of steps from state s1 to state s2 on the cycle of the 128-bit LCG with this increment (O'Neill's pcg distance)"""
+    mult, plus, bit, d = PCG_MULT, inc & M128, 1, 0
+    while s1 != s2:
+        if (s1 & bit) != (s2 & bit):
+            s1 = (s1 * mult + plus) & M128
+            d |= bit
+        bit <<= 1
+        if bit > M128:
+            break
+        plus = ((mult + 1) * plus) & M128
+        mult = (mult * mult) & M128
+    return d
+
+
+def cycle_of(rng):
+    """(cycle identity, state) of the generator's stream; generators of other kinds are each their own cycle"""
+    st = rng.bit_generator.state
+    if st.get("bit_generator") == "PCG64":
+        return ("PCG64", int(st["state"]["inc"])), int(st["state"]["state"])
+    return ("other", json.dumps(st, sort_keys=True, default=str)), None
+
+
 def _streams(rnd, ntriples, nwin):
     intern = Interner()
     out = []
@@ -93,11 +123,24 @@ def _streams(rnd, ntriples, nwin):
         st, r = outcome(sampling.sample, m, ThetaHolder(n_thetas=1), seed, n_chains=nch, chain_index=idx, n_burnin=0, thin=1)
         if st != "ok" or m.rng is None:
             return {"what": "streams", "raised": str(r)}
+        cyc, state = cycle_of(m.rng)
         tok, win = _stream_tok(m.rng, intern, nwin)
         ref = np.random.default_rng(np.random.SeedSequence(seed).spawn(nch)[idx])
         rtok, _ = _stream_tok(ref, intern, nwin)
-        out.append({"seed": seed % 100000, "nchains": nch, "idx": idx, "tok": tok, "ref": rtok, "win": win})
-    return {"what": "streams", "kind": "mcmc", "b": 0, "t": 1, "n": 1, "events": [], "streams": out}
+        out.append({"seed": seed % 100000, "nchains": nch, "idx": idx, "tok": tok, "ref": rtok, "win": win, "cycle": intern(("cycle", cyc)),
+                    "_cyc": cyc, "_state": state})
+    # pairs of streams that run on ONE cycle less than 2^64 draws apart (either direction): they overlap in a long enough run
+    near = []
+    for x in range(len(out)):
+        for y in range(x + 1, len(out)):
+            a, b = out[x], out[y]
+            if a["_cyc"] == b["_cyc"] and a["_state"] is not None and a["_state"] != b["_state"]:
+                d = lcg_distance(a["_state"], b["_state"], a["_cyc"][1])
+                if min(d, (1 << 128) - d) < (1 << 64):
+                    near.append([x + 1, y + 1])
+    for o in out:
+        del o["_cyc"], o["_state"]
+    return {"what": "streams", "kind": "mcmc", "b": 0, "t": 1, "n": 1, "events": [], "streams": out, "near": near}
 
 
 def run(ctx):
@@ -138,6 +181,11 @@ def run(ctx):
     for _ in range(3 if ctx.quick else 20):
         traces.append(_streams(rnd, 5 if ctx.quick else 8, 256 if ctx.quick else 1024))
     _decide(ctx, traces)
+    drift = sum(1 for t in traces if t.get("what") == "streams" for o in t.get("streams", []) if o["tok"] != o["ref"])
+    ctx.extra["model_drift"] = drift
+    if drift:
+        print("NOTE model-drift property=C17: %d generator(s) handed to the model are not SeedSequence(seed).spawn(n_chains)[chain_index] "
+              "(the construction Sampling.tla documents); the clauses of C17 are judged on the streams themselves" % drift)
     ctx.assumptions += ["stream non-overlap is witnessed on a finite prefix (8-draw windows of the first 256/1024 draws); beyond it "
                         "numpy SeedSequence.spawn is trusted"]
 
